@@ -1003,6 +1003,41 @@ func identifiers(c *engine.Ctx) {
 			})
 		}
 	}
+	// every code point of the Basic Multilingual Plane (and the first of each supplementary plane) as a seed of its own
+	// and after a letter: characters that fold, normalise or classify like ASCII letters and digits without being them
+	// are among them. One case per block of 256 code points.
+	c.Bound("node-identifier-code-points", "every code point U+0000..U+FFFF (surrogates excluded) and U+10000, U+1F600, U+E0001, U+10FFFF as a seed alone and after the letter a: non-empty, identifier-safe, reproducible")
+	for blk := 0; blk < 0x101; blk++ {
+		blk := blk
+		c.Case(func() any { return map[string]any{"code-points": fmt.Sprintf("U+%04X..U+%04X", blk*256, blk*256+255)} }, func(t *engine.T) *engine.Violation {
+			var rs []rune
+			if blk == 0x100 {
+				rs = []rune{0x10000, 0x1F600, 0xE0001, 0x10FFFF}
+			} else {
+				for r := rune(blk * 256); r < rune(blk*256+256); r++ {
+					if r >= 0xD800 && r <= 0xDFFF {
+						continue
+					}
+					rs = append(rs, r)
+				}
+			}
+			for _, r := range rs {
+				for _, seed := range []string{string(r), "a" + string(r)} {
+					id1, id2 := sbom.NewNodeIdentifier(seed), sbom.NewNodeIdentifier(seed)
+					t.Transitions(2)
+					if id1 == "" || !idSafe.MatchString(id1) {
+						return engine.Violate("identifier-unsafe", "code-point", "NewNodeIdentifier(%q) (U+%04X) = %q is empty or contains characters outside [A-Za-z0-9.-]", seed, r, id1)
+					}
+					if id1 != id2 {
+						return engine.Violate("identifier-nondeterministic", "code-point", "NewNodeIdentifier(%q) gave %q then %q", seed, id1, id2)
+					}
+				}
+			}
+			t.State(fmt.Sprint("cp", blk))
+			t.Outcome("identifier code-points ok")
+			return nil
+		})
+	}
 	c.Case(func() any { return "no seed" }, func(t *engine.T) *engine.Violation {
 		id := sbom.NewNodeIdentifier()
 		if id == "" || !idSafe.MatchString(id) {
